@@ -287,8 +287,10 @@ pub fn observe(c: &ExecCase, env: &mut ExecEnv) -> String {
     let before = world_values(&c.regs, c.map, &world);
     // a case that drives the dispatcher through RunNow also sets it up and disposes it through RunNow
     let via_trait = c.calls.contains(&'r') || c.next == 'r';
+    CTL_SETUP_CALLS.store(0, Ordering::SeqCst);
     let r = catch_unwind(AssertUnwindSafe(|| if via_trait { shred::RunNow::setup(&mut dispatcher, &mut world) } else { dispatcher.setup(&mut world) }));
-    s.push_str(&format!("setup={};setupok={};", encode(&rec.take()), if r.is_ok() { 1 } else { 0 }));
+    let ctl_setup_calls = CTL_SETUP_CALLS.load(Ordering::SeqCst);
+    s.push_str(&format!("setup={};setupok={};ctlsetups={};", encode(&rec.take()), if r.is_ok() { 1 } else { 0 }, ctl_setup_calls));
     let after = world_values(&c.regs, c.map, &world);
     s.push_str(&format!("setupkeeps={};", if before == after { 1 } else { 0 }));
     // --- setup again, interleaved with removes (C13): some resources are taken away, setup is repeated: every system is
